@@ -511,6 +511,29 @@ func hubPairCases() (out []mcase) {
 			return []wallet.Sig{sc.signAs(sc.B.Acc, st), sc.signAs(sc.M.Acc, st)}
 		})
 	})
+	// after an honest matched funding the hub holds its own copy of the virtual channel (hub index 0, a
+	// dummy account); a participant sends the hub a valid, correctly signed next state of THAT channel
+	vupd := func(name string, signer func(sc *mScene) wallet.Account, actor channel.Index, final bool, from func(sc *mScene) mIdent) {
+		add("vupdate-"+name, true, func(sc *mScene) []*wire.Envelope {
+			if sc.B == nil {
+				return nil
+			}
+			st := &channel.State{ID: sc.hubPairParams().ID(), Version: 1, IsFinal: final, App: channel.NoApp(), Data: channel.NoData(), Allocation: *mAlloc(sc.w.Asset, 2, 3)}
+			return []*wire.Envelope{{Sender: from(sc).Wire, Recipient: sc.V.WireID,
+				Msg: &client.ChannelUpdateMsg{ChannelUpdate: client.ChannelUpdate{State: st, ActorIdx: actor}, Sig: sc.signAs(signer(sc), st)}}}
+		})
+	}
+	asM := func(sc *mScene) mIdent { return partyIdent(sc.M) }
+	asB := func(sc *mScene) mIdent { return partyIdent(sc.B) }
+	asS := func(sc *mScene) mIdent { return sc.S }
+	accM := func(sc *mScene) wallet.Account { return sc.M.Acc }
+	accB := func(sc *mScene) wallet.Account { return sc.B.Acc }
+	vupd("by-alice", accM, 0, false, asM)
+	vupd("by-bob", accB, 1, false, asB)
+	vupd("by-bob-final", accB, 1, true, asB)
+	vupd("by-bob-sent-by-alice", accB, 1, false, asM)
+	vupd("by-bob-sent-by-stranger", accB, 1, false, asS)
+	vupd("by-alice-actor-bob", accM, 1, false, asM)
 	add("update-virtual-id-from-peer", true, func(sc *mScene) []*wire.Envelope { return sc.hubPairProbe(partyIdent(sc.M)) })
 	add("update-virtual-id-from-stranger", true, func(sc *mScene) []*wire.Envelope { return sc.hubPairProbe(sc.S) })
 	return out
